@@ -394,18 +394,29 @@ func (p *Pair) Dial(channel string) (net.Conn, error) {
 // Close shuts both ends down; errors are ignored (shutdown behaviour is the subject of C14, not of fixtures).
 func (p *Pair) Close() {
 	p.once.Do(func() {
-		func() {
-			defer func() { recover() }()
+		// a shutdown that hangs (that can be the defect under test) must not wedge the harness: bounded
+		bounded := func(f func()) {
+			done := make(chan struct{})
+			go func() {
+				defer close(done)
+				defer func() { recover() }()
+				f()
+			}()
+			select {
+			case <-done:
+			case <-time.After(8 * time.Second):
+			}
+		}
+		bounded(func() {
 			if p.Client != nil {
 				_ = p.Client.Shutdown()
 			}
-		}()
-		func() {
-			defer func() { recover() }()
+		})
+		bounded(func() {
 			if p.Server != nil {
 				_ = p.Server.Shutdown()
 			}
-		}()
+		})
 		if p.Relay != nil {
 			p.Relay.Close()
 		}
